@@ -30,6 +30,66 @@ func runC10(p *core.Prog, r *core.Report) {
 	staleIndexRule(p, r, "C10.R6")
 	c10R7(p, r)
 	structKeyRule(p, r, "C10.R8")
+	c10R9(p, r)
+}
+
+// c10R9: the filter options of a referrers listing compose. An option that is given one criterion
+// writes that criterion; only the option that is given the whole set of criteria may replace the set.
+func c10R9(p *core.Prog, r *core.Report) {
+	const rule = "C10.R9"
+	r.Rule(rule, "filter options compose: an option constructor of package scheme whose parameters do not include a value of a struct type never replaces a field of that struct type as a whole (directly or through another constructor it calls); it stores the members it was given, so that combining options keeps every criterion", 3)
+	n := 0
+	for _, fn := range pkgFuncs(p, "scheme") {
+		if fn.Parent() != nil || fn.Object() == nil || !fn.Object().Exported() || fn.Signature.Results().Len() != 1 {
+			continue
+		}
+		if _, isFn := fn.Signature.Results().At(0).Type().Underlying().(*types.Signature); !isFn {
+			continue
+		}
+		paramTypes := map[*types.Named]bool{}
+		for _, v := range sigParams(fn) {
+			if nt := core.NamedOf(v.Type()); nt != nil {
+				paramTypes[nt] = true
+			}
+		}
+		// the closures this constructor can return: its own literals and those of constructors it calls
+		var lits []*ssa.Function
+		seen := map[*ssa.Function]bool{}
+		var collect func(f *ssa.Function, d int)
+		collect = func(f *ssa.Function, d int) {
+			if seen[f] || d > 2 {
+				return
+			}
+			seen[f] = true
+			lits = append(lits, f.AnonFuncs...)
+			core.Calls(f, func(c ssa.CallInstruction) {
+				if g := core.CalleeFn(c); g != nil && core.FuncPkg(g) == core.FuncPkg(fn) && len(g.Blocks) > 0 {
+					collect(g, d+1)
+				}
+			})
+		}
+		collect(fn, 0)
+		if len(lits) == 0 {
+			continue
+		}
+		n++
+		bad := ""
+		for _, fs := range fieldStores(lits, func(nm *types.Named, f string) bool { return true }) {
+			ft := core.NamedOf(fs.Store.Val.Type())
+			if ft == nil {
+				continue
+			}
+			if _, isStruct := ft.Underlying().(*types.Struct); !isStruct || paramTypes[ft] {
+				continue
+			}
+			// a whole struct is stored into a field although the constructor was not given one
+			bad = ft.Obj().Name() + " at " + p.Pos(fs.Store.Pos())
+		}
+		r.Check(bad == "", rule, p.FuncName(fn), "option writes what it was given", p.Pos(fn.Pos()), "the option replaces the whole "+bad+" although it was given only some of its members: every criterion set by an option applied before it is lost")
+	}
+	if n == 0 {
+		r.MissingAnchor(rule, "option constructors of package scheme")
+	}
 }
 
 // structKeyRule: what the client learned about one repository (whether it serves the referrers API)
